@@ -81,6 +81,16 @@ def cases(ctx):
                 if rep:
                     for rpos in range(0, 2):
                         out.append((c, ops, [], [3] * rpos + [(TAGS[fk],)], replies))
+            # a call can also fail on what the server says: an error line, or a line that is no reply at all (for a batch: in the
+            # middle of the replies) - "after any failed call the next call opens a fresh connection"
+            if rep:
+                lines = rep.split(b"\r\n")[:-1]
+                # (the three error lines every exchange path recognises while reading; how an operation interprets an unexpected but
+                # complete reply afterwards - version, incr - is not a connection matter)
+                for bad in (b"SERVER_ERROR out of memory storing object", b"CLIENT_ERROR bad data chunk", b"ERROR"):
+                    out.append((c, ops, [], [], [bad + b"\r\n"] + replies[1:]))
+                    if len(lines) > 1 and not rep.startswith(b"VALUE"):
+                        out.append((c, ops, [], [], [bad + b"\r\n" + b"".join(x + b"\r\n" for x in lines[1:])] + replies[1:]))
             # fallback: socket() fails for the first j addresses
             if c.get("tcp") and c.get("naddr", 1) >= 2:
                 for j in range(1, c["naddr"] + 1):
